@@ -31,7 +31,12 @@ extern "C" long syscall(long number, ...) noexcept {
        e = va_arg(ap, long), f = va_arg(ap, long);
   va_end(ap);
   long ret;
-  if (number == SYS_futex) {
+  // Re-entrancy guard: libstdc++'s __cxa_guard_acquire waits with syscall(SYS_futex) when the
+  // first initialisation of a function-local static is contended; if that static belongs to the
+  // monitor itself (vf::thread_states(), a VF_COUNT counter, ...) we would recurse without bound.
+  static thread_local bool vf_inside = false;
+  if (number == SYS_futex && !vf_inside) {
+    struct Scope { Scope() { vf_inside = true; } ~Scope() { vf_inside = false; } } scope;
     int op = int(b) & FUTEX_CMD_MASK;
     auto* st = vf::my_state();
     if (op == FUTEX_WAIT) {
